@@ -11,6 +11,7 @@ import (
 	"encoding/json"
 	"errors"
 	"fmt"
+	"io"
 	"math"
 	"math/rand"
 	mrand "math/rand"
@@ -493,6 +494,17 @@ func apiTuples(repM, repU *Report, r *rand.Rand, n int) {
 			if e2 != nil || !tokensExactEq(ts, ts2) {
 				repU.violate("C01", "roundtrip-not-equivalent", fmt.Sprintf("sb.Tuple re-marshals to [%s]", truncate(descTokens(ts2), 300)), desc)
 				repU.violate("C11", "any-not-lossless", fmt.Sprintf("sb.Tuple re-marshals to [%s]", truncate(descTokens(ts2), 300)), desc)
+			}
+		}
+		// (1b) into a schema-less target: the same stream again (nil members included)
+		if k <= 50 {
+			var x any
+			e = guard(func() error { return copyBudget(tokensFrom(ts), sb.Unmarshal(&x)) })
+			repU.Evaluations++
+			re, e2 := marshalTokens(x, nil)
+			if e != nil || e2 != nil || !tokensExactEq(re, ts) {
+				repU.violate("C11", "any-not-lossless", fmt.Sprintf("a tuple stream into any and back: %v %v [%s]", e, e2, truncate(descTokens(re), 300)), desc)
+				repU.violate("C13", "combinator-not-transparent", fmt.Sprintf("a tuple stream into any and back: %v %v [%s]", e, e2, truncate(descTokens(re), 300)), desc)
 			}
 		}
 		// (2) typed: TypedTuple with the items' own types gives the items back
@@ -2071,14 +2083,14 @@ func apiKeysNaNAndCycles(rep *Report, props ...string) {
 	nan := math.NaN()
 	nan32 := float32(math.NaN())
 	for name, v := range map[string]any{
-		"map[any]int{NaN: 1}":                 map[any]int{nan: 1},
-		"map[any]int{float32(NaN): 1}":        map[any]int{nan32: 1},
-		"map[any]int{NaN: 1, NaN: 2}":         map[any]int{nan: 1, math.Float64frombits(0x7ff8000000000002): 2},
-		"map[*float64]int{&NaN: 1}":           map[*float64]int{&nan: 1},
-		"map[any]int{&NaN: 1}":                map[any]int{&nan: 1},
-		"map[[1]any]int{{NaN}: 1}":            map[[1]any]int{{nan}: 1},
-		"struct{M map[any]string}{{NaN: x}}":  struct{ M map[any]string }{map[any]string{nan: "x"}},
-		"[]any{map[any]any{NaN: nil}}":        []any{map[any]any{nan: nil}},
+		"map[any]int{NaN: 1}":                map[any]int{nan: 1},
+		"map[any]int{float32(NaN): 1}":       map[any]int{nan32: 1},
+		"map[any]int{NaN: 1, NaN: 2}":        map[any]int{nan: 1, math.Float64frombits(0x7ff8000000000002): 2},
+		"map[*float64]int{&NaN: 1}":          map[*float64]int{&nan: 1},
+		"map[any]int{&NaN: 1}":               map[any]int{&nan: 1},
+		"map[[1]any]int{{NaN}: 1}":           map[[1]any]int{{nan}: 1},
+		"struct{M map[any]string}{{NaN: x}}": struct{ M map[any]string }{map[any]string{nan: "x"}},
+		"[]any{map[any]any{NaN: nil}}":       []any{map[any]any{nan: nil}},
 	} {
 		_, err := marshalTokens(v, nil)
 		rep.Evaluations++
@@ -2162,6 +2174,53 @@ func apiUnicodeFieldNames(repU *Report) {
 		repU.Evaluations++
 		if classOf(e) != "EBadField" {
 			repU.violate("C11", "bad-field-name-accepted", fmt.Sprintf("the field name %q into any: %v, expected BadFieldName", name, e), "field name "+name)
+		}
+	}
+}
+
+// ---- C15: a fault whose cause is (or wraps) io.EOF still is a fault when it passes through IterStream / Deref ----
+func apiEOFWrappedFaults(rep *Report) {
+	valid := runEncode([]sb.Token{tokK(sb.KindArray), tokS("a string of some length"), tokI(5), {Kind: sb.KindBytes, Value: []byte("blob")}, tokK(sb.KindArrayEnd)}, 0, 0).bytes
+	wrapEOF := fmt.Errorf("verif: transport closed: %w", io.EOF)
+	for cut := 1; cut < len(valid); cut++ {
+		direct, dErr := collect(sb.Decode(bytes.NewReader(valid[:cut])))
+		if dErr == nil {
+			continue // a cut between two tokens is a clean end
+		}
+		p := sb.IterStream(sb.Decode(bytes.NewReader(valid[:cut])), nil)
+		got, err := collect(&p)
+		rep.Evaluations++
+		rep.count("api:eof-wrapped-faults")
+		if err == nil || classOf(err) != classOf(dErr) || !tokensExactEq(got, direct) {
+			rep.violate("C15", "stream-fault-lost", fmt.Sprintf("Decode of an input cut at byte %d fails with %v after %d tokens; through IterStream: %v after %d tokens", cut, dErr, len(direct), err, len(got)), fmt.Sprintf("IterStream(Decode(%x))", valid[:cut]))
+			rep.violate("C13", "combinator-not-transparent", fmt.Sprintf("IterStream changes the outcome of a failing source: %v vs %v", dErr, err), fmt.Sprintf("IterStream(Decode(%x))", valid[:cut]))
+		}
+	}
+	// a source failing with a cause that wraps io.EOF, at every position, through IterStream, Marshal(IterStream) and Deref
+	ts := []sb.Token{tokK(sb.KindArray), tokI(1), tokS("x"), tokK(sb.KindArrayEnd)}
+	for at := 0; at <= len(ts); at++ {
+		mk := func() sb.Stream {
+			i := 0
+			var p sb.Proc
+			p = func(t *sb.Token) (sb.Proc, error) {
+				if i == at {
+					return nil, wrapEOF
+				}
+				if i >= len(ts) {
+					return nil, nil
+				}
+				*t = ts[i]
+				i++
+				return p, nil
+			}
+			return &p
+		}
+		it := sb.IterStream(mk(), nil)
+		_, e1 := collect(&it)
+		_, e2 := collect(sb.Deref(tokensFrom([]sb.Token{{Kind: sb.KindRef, Value: []byte("h")}}), func(h []byte) (sb.Stream, error) { return mk(), nil }))
+		rep.Evaluations += 2
+		if !errorsIs(e1, wrapEOF) || !errorsIs(e2, wrapEOF) {
+			rep.violate("C15", "stream-fault-lost", fmt.Sprintf("a source failing at token %d with a cause wrapping io.EOF: IterStream returns %v, Deref of a reference resolved to it returns %v", at, e1, e2), "failing source with an io.EOF-wrapping cause")
 		}
 	}
 }
